@@ -24,6 +24,12 @@ def generate(streams, tier):
     connected = r.random() < 0.7
     if kind == "bn":
         world = W.gen_bn(streams, max_n=7 if big else 6, max_joint=16384 if big else 2048, connected=connected, max_parents=3)
+        rm = streams.s("mixed_labels")
+        if rm.random() < 0.12:
+            # names of several types in one network (a year, a string, a pair): hashable, but not mutually orderable
+            pool = [2020, 7, 0, "region", "sales", "q", ["sales", 1], ["t", 0], 3.5]
+            world["labels"] = rm.sample(pool, world["n"])
+            world["flags"]["label_mode"] = "mixedtype"
         config = {"bn": W.gen_bn_config(streams, world)}
     else:
         world = W.gen_mn(streams, max_n=7 if big else 6, min_n=2, max_joint=16384 if big else 2048, connected=connected,
